@@ -2,7 +2,10 @@
 import json, os
 
 RULE = ("V: every vector of RemoteList.tla (population over 8 abstract addresses + a 4-in-6 alias x 2 ports x 2 owners x "
-        "learned/reported/dns/blocked/relays/preferred-range menus, rebuild, one change, rebuild) executed on a real "
+        "learned/reported/dns/blocked/relays/preferred-range menus, rebuild, one change, rebuild; owner shapes {nothing, static "
+        "v4 only, v6 only, 4-in-6, both, learned only, relays only, lighthouse message, mixtures} x the other owner's shape with "
+        "a rebuild after every call, ResetForOwner, re-report, reset of the other owner; static hosts: initial static_host_map "
+        "and two reloads with replaced/removed literals through a real LightHouse configuration reload) executed on a real "
         "RemoteList; CopyAddrs/ForEach/Len/relays compared with the reference lists; distinct = distinct vectors. "
         "T: seeded random call sequences over random concrete addresses (harness computes the attribute table), every "
         "recorded list validated by TLC against the reference (Trace_RemoteList.tla)")
@@ -47,11 +50,26 @@ def run(ctx):
                         after_unblock = False
             if ln.get('ev') == 'rebuild' and after_unblock:
                 key += ':after-unblock'
-            ctx.violation(key, 'recorded call %s is not a behaviour of RemoteList.tla (reference lists differ)' %
-                          json.dumps(ln), fl)
+            # a rebuild that follows a ResetForOwner (no other rebuild in between)
+            after_reset = False
+            for e in tr[:-1]:
+                if e.get('ev') == 'rebuild':
+                    after_reset = False
+                elif e.get('ev') == 'op' and e['op'][0] == 'reset':
+                    after_reset = True
+            ctx.violation(key, 'recorded call %s is not a behaviour of RemoteList.tla (reference lists differ)%s' %
+                          (json.dumps(ln), ' [first rebuild after a ResetForOwner]' if ln.get('ev') == 'rebuild' and after_reset else ''), fl)
     if not ctx.violations:      # a violation ends its history early; it is a verdict by itself
         ctx.require_actions('rep', 'learn', 'relay', 'dns', 'block', 'unblock', 'reset', 'prepend', 'rebuild',
-                        'rebuild-after-unblock', 'T:rebuild', 'T:rep', 'T:block', 'T:unblock', 'T:dns')
+                        'rebuild-after-unblock', 'static',
+                        # ResetForOwner on every shape of owner (RemoteList.tla, Shape): absent, static host with IPv4 / IPv6 / both
+                        # kinds of literals (only the needed per-family cache exists), lighthouse message with IPv6 only,
+                        # learned only, relays only, learned + reported in the same family
+                        'reset:rep-none.cache-none.lrn-none.rly-no', 'reset:rep-v4.cache-v4.lrn-none.rly-no',
+                        'reset:rep-v6.cache-v6.lrn-none.rly-no', 'reset:rep-v4v6.cache-v4v6.lrn-none.rly-no',
+                        'reset:rep-v6.cache-v4v6.lrn-none.rly-no', 'reset:rep-none.cache-v4.lrn-v4.rly-no',
+                        'reset:rep-none.cache-v6.lrn-v6.rly-no', 'reset:rep-none.cache-none.lrn-none.rly-yes',
+                        'reset:rep-v6.cache-v6.lrn-v6.rly-no', 'T:reset', 'T:prepend', 'T:rebuild', 'T:rep', 'T:block', 'T:unblock', 'T:dns')
 
 
 META = {
